@@ -342,14 +342,6 @@ bool ManifestParser::ParseEdge(string* err) {
   Edge* edge = state_->AddEdge(rule);
   edge->env_ = env;
 
-  string pool_name = edge->GetBinding("pool");
-  if (!pool_name.empty()) {
-    Pool* pool = state_->LookupPool(pool_name);
-    if (pool == NULL)
-      return lexer_.Error("unknown pool name '" + pool_name + "'", err);
-    edge->pool_ = pool;
-  }
-
   edge->outputs_.reserve(outs_.size());
   for (size_t i = 0, e = outs_.size(); i != e; ++i) {
     string path = outs_[i].Evaluate(env);
@@ -383,6 +375,16 @@ bool ManifestParser::ParseEdge(string* err) {
   }
   edge->implicit_deps_ = implicit;
   edge->order_only_deps_ = order_only;
+
+  // Like every rule variable, "pool" is expanded in the scope of the build
+  // statement: look it up once $in and $out are known.
+  string pool_name = edge->GetBinding("pool");
+  if (!pool_name.empty()) {
+    Pool* pool = state_->LookupPool(pool_name);
+    if (pool == NULL)
+      return lexer_.Error("unknown pool name '" + pool_name + "'", err);
+    edge->pool_ = pool;
+  }
 
   edge->validations_.reserve(validations_.size());
   for (std::vector<EvalString>::iterator v = validations_.begin();
